@@ -1,9 +1,13 @@
 import Teleport.Drv.C05
+import Teleport.Drv.C10
+import Teleport.Drv.C11
+import Teleport.Drv.C12
+import Teleport.Drv.C18
 open Teleport.Drv
 
 /-- every case kind of the line protocol with its model handler (one list per property module). -/
 def allHandlers : List (String × (Fields → String)) :=
-  handlersC05
+  handlersC05 ++ handlersC10 ++ handlersC11 ++ handlersC12 ++ handlersC18
 
 def handle (line : String) : String :=
   match (line.trimAscii.toString.splitOn " ").filter (· ≠ "") with
